@@ -238,6 +238,21 @@ LOCALES = {"utf8": "C.UTF-8", "C": "C"}
 
 
 def apply_process_env(scenario: dict, ctx) -> None:
+    lvl = scenario.get("logging")
+    if lvl:
+        # the application has switched logging on (root logger with a handler that formats every
+        # record): log statements inside the library are executed, not skipped
+        import io
+        import logging
+
+        h = logging.StreamHandler(io.StringIO())
+        h.setFormatter(logging.Formatter("%(asctime)s %(name)s %(levelname)s %(message)s"))
+        root = logging.getLogger()
+        root.addHandler(h)
+        root.setLevel(lvl)
+        logging.getLogger("scipp").setLevel(lvl)
+        ctx.log("logging", lvl)
+        ctx.probe("logging_" + lvl)
     loc = scenario.get("locale")
     if not loc:
         return
